@@ -396,18 +396,28 @@ func (ps *PubSub) Channels() []string {
 	if !ps.initd {
 		return nil
 	}
+	return ps.channels(func(string) bool { return true })
+}
 
+// channels returns the distinct channels (patterns excluded) that have at least one
+// subscriber and satisfy keep. The caller holds ps.mu.
+func (ps *PubSub) channels(keep func(channel string) bool) []string {
 	var channels []string
+	seen := make(map[string]struct{})
 	for _, sconn := range ps.conns {
 		sconn.mu.Lock()
 		for ient := range sconn.entries {
-			if !ient.pattern {
-				channels = append(channels, ient.channel)
+			if ient.pattern || !keep(ient.channel) {
+				continue
 			}
+			if _, ok := seen[ient.channel]; ok {
+				continue
+			}
+			seen[ient.channel] = struct{}{}
+			channels = append(channels, ient.channel)
 		}
 		sconn.mu.Unlock()
 	}
-
 	return channels
 }
 
@@ -418,19 +428,7 @@ func (ps *PubSub) ChannelsWithPatterns(pattern string) []string {
 	if !ps.initd {
 		return nil
 	}
-
-	var channels []string
-	for _, sconn := range ps.conns {
-		sconn.mu.Lock()
-		for ient := range sconn.entries {
-			if match.Match(ient.channel, pattern) {
-				channels = append(channels, ient.channel)
-			}
-		}
-		sconn.mu.Unlock()
-	}
-
-	return channels
+	return ps.channels(func(channel string) bool { return match.Match(channel, pattern) })
 }
 
 func (ps *PubSub) Numpat() int {
@@ -467,7 +465,7 @@ func (ps *PubSub) Numsub(channel string) int {
 	for _, sconn := range ps.conns {
 		sconn.mu.Lock()
 		for ient := range sconn.entries {
-			if ient.channel == channel {
+			if !ient.pattern && ient.channel == channel {
 				result++
 			}
 		}
